@@ -231,9 +231,29 @@ Definition xnode_removal_trigger (pre : ostate) (st : ostep) : bool :=
   | _ => false
   end.
 
+(* 6: a request stays in the application's request map with the allocated flag set although no allocation exists
+      any more (left behind by a release with termination type TIMEOUT, which skips RemoveAllocationAsk, or by node
+      removal) and is then addressed by an si.Allocation with a changed resource: UpdateAllocationResources takes the
+      allocated branch and books the delta on application, queue and node although nothing is allocated.
+      (found as a refutation of the books invariant over Core/Model2.v, confirmed on the real code) *)
+Definition stale_allocated_update (pre : ostate) (st : ostep) : bool :=
+  match st_op st with
+  | OpAlloc r =>
+      match find_app pre (rq_app r) with
+      | Some a => match find_alloc (ap_requests a) (rq_key r) with
+                  | Some x => oa_allocated x && (oa_release x =? 0) &&
+                              match find_alloc (ap_allocs a) (oa_key x) with Some _ => false | None => true end &&
+                              negb (res_eqz (oa_res x) (oget (rq_res r)))
+                  | None => false end
+      | None => false
+      end
+  | _ => false
+  end.
+
 Definition known_trigger (pre : ostate) (st : ostep) : option N :=
   if terminated_with_allocs pre st then Some 4 else
   if xnode_removal_trigger pre st then Some 5 else
+  if stale_allocated_update pre st then Some 6 else
   match st_op st with
   | OpAlloc r =>
       match find_app pre (rq_app r) with
